@@ -162,8 +162,10 @@ class NormPrim:
                 M.eq("norm_prim/value" + tag((c, k)), norm[c, k], basisfn.prim_norm(M.SF, sexps[k], comp))
 
 
-def sym_shell_pair(M, la, lb, Ka, Kb, Ma, Mb, same_centre=False):
-    """two real shells with symbolic data; opaque positive norm_cont (not used by the block)"""
+def sym_shell_pair(M, la, lb, Ka, Kb, Ma, Mb, same_centre=False, types=None):
+    """two real shells with symbolic data; opaque positive norm_cont (not used by the block); types: the coordinate-type
+    tags of the two shells (a block routine returns the Cartesian block whatever the tags say)"""
+    types = types or ("cartesian", "cartesian")
     if Ka == 1 and Kb == 1 and not same_centre:
         P, AB = M.vec("P", 3), M.vec("AB", 3)
         a, b = M.pos("a_0"), M.pos("b_0")
@@ -176,14 +178,20 @@ def sym_shell_pair(M, la, lb, Ka, Kb, Ma, Mb, same_centre=False):
         ea, eb = M.vec("a", Ka, "pos"), M.vec("b", Kb, "pos")
     da, db = M.vec("da", (Ka, Ma)), M.vec("db", (Kb, Mb))
     La, Lb = (la + 1) * (la + 2) // 2, (lb + 1) * (lb + 2) // 2
-    s1 = make_shell(M, la, A, da, ea, norm_cont=M.vec("n1", (Ma, La), "pos"))
-    s2 = make_shell(M, lb, B, db, eb, norm_cont=M.vec("n2", (Mb, Lb), "pos"))
+    s1 = make_shell(M, la, A, da, ea, coord_type=types[0], norm_cont=M.vec("n1", (Ma, La), "pos"))
+    s2 = make_shell(M, lb, B, db, eb, coord_type=types[1], norm_cont=M.vec("n2", (Mb, Lb), "pos"))
     return s1, s2
 
 
 def spec_of_shell(M, sh):
     return ShellSpec(M.to_spec(sh.coord), M.to_spec(sh.exps), M.to_spec(sh.coeffs),
                      [tuple(int(x) for x in r) for r in sh.angmom_components_cart])
+
+
+# shells tagged spherical / mixed: the Cartesian block must not depend on the tags (l differing by 0, 1, 2; either order)
+TYPE_SHAPES = [dict(la=0, lb=2, K=[1, 1], M=[1, 1], types=["spherical", "cartesian"]), dict(la=2, lb=0, K=[1, 1], M=[1, 1], types=["cartesian", "spherical"]),
+               dict(la=1, lb=1, K=[1, 1], M=[1, 1], types=["spherical", "spherical"]), dict(la=2, lb=1, K=[1, 1], M=[1, 1], types=["spherical", "cartesian"]),
+               dict(la=0, lb=2, K=[1, 1], M=[1, 1], types=["spherical", "spherical"])]
 
 
 class OverlapBlock:
@@ -201,6 +209,7 @@ class OverlapBlock:
                 out.append(dict(la=la, lb=lb, K=[1, 1], M=[1, 1]))
         out += [dict(la=1, lb=0, K=[2, 1], M=[2, 1]), dict(la=0, lb=2, K=[1, 2], M=[1, 3]),
                 dict(la=1, lb=1, K=[2, 2], M=[2, 2])]
+        out += TYPE_SHAPES
         if tier == "thorough":
             out += [dict(la=2, lb=1, K=[3, 2], M=[1, 2]), dict(la=0, lb=0, K=[4, 4], M=[3, 3]),
                     dict(la=2, lb=2, K=[2, 2], M=[2, 1])]
@@ -208,7 +217,7 @@ class OverlapBlock:
 
     def run(self, shape, M):
         ov = M.mods["gbasis.integrals.overlap"]
-        s1, s2 = sym_shell_pair(M, shape["la"], shape["lb"], *shape["K"], *shape["M"])
+        s1, s2 = sym_shell_pair(M, shape["la"], shape["lb"], *shape["K"], *shape["M"], types=shape.get("types"))
         fr = Frame(c1=s1.coord, e1=s1.exps, d1=s1.coeffs, c2=s2.coord, e2=s2.exps, d2=s2.coeffs,
                    n1=s1.norm_cont, n2=s2.norm_cont)
         out = ov.Overlap.construct_array_contraction(s1, s2)
